@@ -262,7 +262,46 @@ func runCB(x *X) {
 			x.Probe("config-rejected-by-validation")
 		}
 	}
-	if ok && accepted && x.Want("C08") && c.Intn(3, "recovery-with-overlapping-traffic") == 0 {
+	if ok && accepted && x.Want("C08") && c.Intn(4, "straggler-fails-while-open") == 0 {
+		// A request that was already in flight when the breaker opened fails while it is open. From
+		// the opening on, every request that is *sent* would succeed: `timeout` after the opening the
+		// breaker has to let trials through, whatever came back from the past in between.
+		x.Advance(timeout+time.Millisecond, onErr)
+		for k := 0; k < st+mr+1 && !x.dead; k++ {
+			x.Do("towards-closed", func() { doExec(cbOp{kind: "exec", outcome: "ok"}) }, onErr)
+		}
+		var stt circuitbreaker.State
+		x.Do("state", func() { stt = cb.State() }, onErr)
+		if stt == circuitbreaker.StateClosed && !x.dead {
+			late := []time.Duration{timeout / 2, timeout - 10*time.Millisecond, timeout / 4}[c.Intn(3, "straggler-late")]
+			s.Spawn("straggler", func() { doExec(cbOp{kind: "exec", outcome: "fail", dur: late}) })
+			x.Settle(onErr)
+			for k := 0; k < ft && !x.dead; k++ {
+				x.Do("trip", func() { doExec(cbOp{kind: "exec", outcome: "fail"}) }, onErr)
+			}
+			x.Advance(timeout+time.Millisecond, onErr)
+			x.RunTasks(onErr)
+			bound := st + mr + 1
+			closedAt := -1
+			var rets []string
+			for k := 0; k < bound+2 && !x.dead && closedAt < 0; k++ {
+				var r string
+				x.Do("recover", func() { r = doExec(cbOp{kind: "exec", outcome: "ok"}) }, onErr)
+				rets = append(rets, r)
+				x.Do("state", func() { stt = cb.State() }, onErr)
+				if stt == circuitbreaker.StateClosed {
+					closedAt = k + 1
+				}
+			}
+			if !x.dead {
+				if closedAt < 0 || closedAt > bound {
+					x.Violate("C08", "C08/no-recovery{straggler-failed-while-open}", "breaker not CLOSED %v after it opened (timeout %v) plus %d successful requests; a request that was in flight at the opening failed %v into the open period (ft=%d st=%d mr=%d): returns=%v", timeout+time.Millisecond, timeout, bound, late, ft, st, mr, rets)
+				} else {
+					x.Probe("recovered-after-straggler-failed-while-open")
+				}
+			}
+		}
+	} else if ok && accepted && x.Want("C08") && c.Intn(3, "recovery-with-overlapping-traffic") == 0 {
 		// The same claim with traffic that overlaps: every `timeout` a group of 2-4 requests
 		// arrives together, every one that is admitted succeeds. Requests refused while trials
 		// are in flight are not failures of the backend: after a bounded number of successful
